@@ -822,6 +822,12 @@ class WorkflowConductor(object):
 
             task_state_entry["retry"]["count"] = count_value
 
+    def _fail_workflow(self):
+        # Fail the workflow on error unless the workflow is already canceled. A canceled workflow
+        # stays canceled and a late task completion is still recorded along with its errors.
+        if self.get_workflow_status() != statuses.CANCELED:
+            self.request_workflow_status(statuses.FAILED)
+
     def add_task_state(self, task_id, route, in_ctx_idxs=None, prev=None):
         if not self.graph.has_task(task_id):
             raise exc.InvalidTask(task_id)
@@ -845,7 +851,7 @@ class WorkflowConductor(object):
                 # Fail the workflow if the retry delay or count cannot be evaluated.
                 task_state_entry.pop("retry", None)
                 self.log_error(e, task_id=task_id, route=route)
-                self.request_workflow_status(statuses.FAILED)
+                self._fail_workflow()
 
         # Append the task state entry to the list of task execution.
         task_state_entry_id = constants.TASK_STATE_ROUTE_FORMAT % (task_id, str(route))
@@ -975,7 +981,7 @@ class WorkflowConductor(object):
                 # Fail the workflow if the retry condition cannot be evaluated.
                 retry_requested = False
                 self.log_error(e, task_id=task_id, route=route)
-                self.request_workflow_status(statuses.FAILED)
+                self._fail_workflow()
 
             if retry_requested:
                 return self.update_task_state(task_id, route, events.TaskRetryEvent())
@@ -1007,7 +1013,7 @@ class WorkflowConductor(object):
                     task_state_entry["next"][task_transition_id] = all(evaluated_criteria)
                 except Exception as e:
                     self.log_error(e, task_id, route, task_transition_id)
-                    self.request_workflow_status(statuses.FAILED)
+                    self._fail_workflow()
                     continue
 
                 # If criteria met, then mark the next task staged and calculate outgoing context.
@@ -1023,7 +1029,7 @@ class WorkflowConductor(object):
 
                     if errors:
                         self.log_errors(errors, task_id, route, task_transition_id)
-                        self.request_workflow_status(statuses.FAILED)
+                        self._fail_workflow()
                         continue
 
                     out_ctx_idxs = json_util.deepcopy(task_state_entry["ctxs"]["in"])
